@@ -722,6 +722,16 @@ func instrumentAccesses(fset *token.FileSet, rel string, typed *TypedInfo, f *as
 					rep.Rewrites["access"] += len(acc)
 				}
 			}
+			if typed != nil {
+				if mx, ok := typed.MapWrites[rel][fset.Position(st.Pos()).Offset]; ok {
+					if e, err := parser.ParseExpr(mx); err == nil {
+						out = append(out, callCoop("AccessMap", e, strLit(mx+" (map)"), boolLit(true)))
+						needImports[shimCoop] = "vcoop"
+						n++
+						rep.Rewrites["map write"]++
+					}
+				}
+			}
 			doStmt(st)
 			for _, h := range fixNil(headerNodes(st)) {
 				doFuncLits(h)
